@@ -29,6 +29,8 @@ type sim struct {
 	todo     int
 	stopped  bool
 	lastSent int
+	busy     bool // the handler is inside cfg.Broadcast for a request
+	busyTx   int
 }
 
 func newSim() *sim { return &sim{pending: map[int]bool{}} }
@@ -80,6 +82,17 @@ func (s *sim) apply(op *Op) {
 		}
 	case "stop":
 		s.stopped = true
+	case "bcstart":
+		if !s.stopped && !s.busy {
+			s.busy, s.busyTx = true, op.Tx
+		}
+	case "bcret":
+		if s.busy {
+			s.busy = false
+			if !s.stopped && (op.Out == "accept" || op.Out == "mempool") {
+				s.pending[s.busyTx] = true
+			}
+		}
 	}
 }
 
@@ -107,6 +120,11 @@ type runner struct {
 	hmu      sync.Mutex
 	hTx      *wire.MsgTx
 	hErr     error
+	hHold    bool       // the handler's next call is held open
+	hposts   chan post  // ... and announced here
+	hpost    *post      // the held call
+	bcRes    chan error // result of the Broadcast caller whose request is held
+	bcTx     int
 	inflight []post
 	stash    *post
 	cur      []int
@@ -153,7 +171,7 @@ func makeTxs(h *History, r *rand.Rand) ([]*wire.MsgTx, map[chainhash.Hash]int) {
 // newRunner starts a Broadcaster for the (empty) history h.
 func newRunner(h *History, seed int64, settle time.Duration) *runner {
 	r := rand.New(rand.NewSource(seed*7 + int64(h.ID)*13 + 5))
-	ru := &runner{h: h, s: newSim(), posts: make(chan post, 64), abort: make(chan struct{}),
+	ru := &runner{h: h, s: newSim(), posts: make(chan post, 64), hposts: make(chan post, 4), abort: make(chan struct{}),
 		ntfn: make(chan blockntfns.BlockNtfn), settle: settle}
 	ru.txs, ru.ids = makeTxs(h, r)
 	h.Ops, h.Orders = nil, nil
@@ -167,9 +185,23 @@ func newRunner(h *History, seed int64, settle time.Duration) *runner {
 			// the worker sends copies.
 			ru.hmu.Lock()
 			if tx == ru.hTx {
-				e := ru.hErr
+				e, hold := ru.hErr, ru.hHold
 				ru.hmu.Unlock()
-				return e
+				if !hold {
+					return e
+				}
+				hp := post{tx: tx, reply: make(chan error, 1)}
+				select {
+				case ru.hposts <- hp:
+				case <-ru.abort:
+					return nil
+				}
+				select {
+				case e := <-hp.reply:
+					return e
+				case <-ru.abort:
+					return nil
+				}
 			}
 			ru.hmu.Unlock()
 			p := post{tx: tx, reply: make(chan error, 1)}
@@ -253,7 +285,7 @@ func (ru *runner) exec(op Op) {
 	case "bc":
 		cp := ru.txs[op.Tx].Copy()
 		ru.hmu.Lock()
-		ru.hTx, ru.hErr = cp, outErr(op.Out)
+		ru.hTx, ru.hErr, ru.hHold = cp, outErr(&op), false
 		ru.hmu.Unlock()
 		res := make(chan error, 1)
 		go func() { res <- b.Broadcast(cp) }()
@@ -266,6 +298,52 @@ func (ru *runner) exec(op Op) {
 			}
 		case <-time.After(long):
 			ru.fail("Broadcast did not return within 3s", "broadcast-blocked")
+		}
+	case "bcstart":
+		// a Broadcast request whose cfg.Broadcast call (made by the handler)
+		// is held open until the matching bcret
+		cp := ru.txs[op.Tx].Copy()
+		ru.hmu.Lock()
+		ru.hTx, ru.hErr, ru.hHold = cp, nil, true
+		ru.hmu.Unlock()
+		res := make(chan error, 1)
+		go func() { res <- b.Broadcast(cp) }()
+		select {
+		case hp := <-ru.hposts:
+			op.Obs, op.OTx = "held", op.Tx
+			ru.hpost, ru.bcRes, ru.bcTx = &hp, res, op.Tx
+		case err := <-res:
+			op.Obs, op.OTx, op.ORet = "ret", op.Tx, classify(err)
+			if !ru.stopped {
+				ru.unexpected = true
+			}
+		case <-time.After(long):
+			ru.fail("Broadcast neither reached the callback nor returned within 3s", "broadcast-blocked")
+		}
+	case "bcret":
+		if ru.hpost == nil {
+			break
+		}
+		ru.hpost.reply <- outErr(&op)
+		ru.hpost = nil
+		if !ru.stopped {
+			select {
+			case err := <-ru.bcRes:
+				op.Obs, op.OTx, op.ORet = "ret", ru.bcTx, classify(err)
+			case <-time.After(long):
+				ru.fail("Broadcast did not return within 3s after its callback returned", "broadcast-blocked")
+			}
+			break
+		}
+		// The caller left at Stop; the handler must get rid of its reply and
+		// leave, so that Stop can finish (unless the worker still holds it up).
+		op.Obs = "ansh"
+		if ru.stopDone != nil && len(ru.inflight) == 0 {
+			select {
+			case <-ru.stopDone:
+			case <-time.After(long):
+				ru.fail("Stop did not return within 3s after the handler's Broadcast callback returned", "stop-blocked")
+			}
 		}
 	case "conf":
 		res := make(chan struct{})
@@ -338,7 +416,7 @@ func (ru *runner) exec(op Op) {
 		}
 	case "wret":
 		if len(ru.inflight) > 0 {
-			ru.inflight[0].reply <- outErr(op.Out)
+			ru.inflight[0].reply <- outErr(&op)
 			ru.inflight = ru.inflight[1:]
 			op.Obs = "ans"
 		}
@@ -364,7 +442,7 @@ func (ru *runner) exec(op Op) {
 		}
 	case "wdone":
 		willEnd := s.ends()
-		if ru.stopDone != nil {
+		if ru.stopDone != nil && ru.hpost == nil {
 			select {
 			case <-ru.stopDone:
 			case <-time.After(long):
@@ -385,8 +463,24 @@ func (ru *runner) exec(op Op) {
 			ru.stopDone = make(chan struct{})
 			go func(ch chan struct{}) { b.Stop(); close(ch) }(ru.stopDone)
 		}
+		first := !ru.stopped
 		ru.stopped = true
-		if len(ru.inflight) > 0 {
+		if ru.hpost != nil {
+			// the handler sits in a request's callback: the caller of that
+			// request must leave with ErrBroadcasterStopped
+			if first {
+				select {
+				case err := <-ru.bcRes:
+					op.Obs, op.OTx = "stopbc", ru.bcTx
+					if classify(err) != "stopped" {
+						op.Obs = "stop"
+						ru.unexpected = true
+					}
+				case <-time.After(long):
+					ru.fail("Broadcast caller not released within 3s of Stop while its callback is open", "broadcast-blocked")
+				}
+			}
+		} else if len(ru.inflight) > 0 {
 			// Stop waits for the in-flight call; give the idle handler
 			// time to notice quit before the next caller operation.
 			time.Sleep(time.Millisecond)
@@ -504,8 +598,12 @@ func genParents(r *rand.Rand, n int) [][]int {
 
 // forced emits the operation the schedule cannot postpone (see header of
 // Model.v: hand-off and exit of the worker are not observable moments).
-func forced(ru *runner) bool {
+func forced(ru *runner, r *rand.Rand) bool {
 	switch {
+	case ru.s.w == 3 && ru.s.busy && !ru.s.stopped:
+		// the hand-off needs the handler, which is inside a request's call
+		ru.exec(Op{Kind: "bcret", Out: pickOut(r, false), R: r.Intn(8)})
+		return true
 	case ru.s.w == 3:
 		ru.exec(Op{Kind: "whand"})
 		return true
@@ -520,7 +618,12 @@ func forced(ru *runner) bool {
 func genB(r *rand.Rand, h *History, ru *runner, nops int) {
 	s := ru.s
 	ntx := h.NTx
-	push := ru.exec
+	push := func(op Op) {
+		if op.Out != "" {
+			op.R = r.Intn(8)
+		}
+		ru.exec(op)
+	}
 	malformed := r.Intn(100) < 25 // more nonsense: confs of unknown txs, probes, repeats
 	pickTx := func(pending bool) int {
 		if pending && len(s.pending) > 0 && r.Intn(10) < 8 {
@@ -551,17 +654,35 @@ func genB(r *rand.Rand, h *History, ru *runner, nops int) {
 			if s.w == 1 && s.todo > 0 {
 				push(Op{Kind: "wcall", Expect: true})
 			}
-			if !forced(ru) {
+			if !forced(ru, r) {
 				push(Op{Kind: "stop"})
 			}
 			continue
 		}
-		if forced(ru) {
+		if s.busy && !s.stopped {
+			// the handler is inside a request's call: only the worker's own
+			// steps, the return of that call, or Stop can happen
+			x := r.Intn(100)
+			switch {
+			case s.w == 1 && s.todo == 0:
+				push(Op{Kind: "wdone"})
+			case s.w == 1 && s.todo > 0 && x < 35:
+				push(Op{Kind: "wcall", Expect: true})
+			case s.w == 2 && x < 35:
+				push(Op{Kind: "wret", Out: pickOut(r, true)})
+			default:
+				push(Op{Kind: "bcret", Out: pickOut(r, false)})
+			}
+			continue
+		}
+		if forced(ru, r) {
 			continue
 		}
 		x := r.Intn(100)
 		if s.stopped {
 			switch {
+			case s.busy && x < 40:
+				push(Op{Kind: "bcret", Out: pickOut(r, false)})
 			case s.w == 2 && x < 50:
 				push(Op{Kind: "wret", Out: pickOut(r, true)})
 				push(Op{Kind: "wdone"})
@@ -583,8 +704,10 @@ func genB(r *rand.Rand, h *History, ru *runner, nops int) {
 			push(Op{Kind: "wcall", Expect: true})
 		case s.w == 2 && x < 45:
 			push(Op{Kind: "wret", Out: pickOut(r, true)})
-		case x < 62:
+		case x < 55:
 			push(Op{Kind: "bc", Tx: pickTx(false), Out: pickOut(r, false)})
+		case x < 62:
+			push(Op{Kind: "bcstart", Tx: pickTx(false)})
 		case x < 74:
 			push(Op{Kind: "conf", Tx: pickTx(!malformed)})
 		case x < 94:
@@ -602,6 +725,10 @@ func genB(r *rand.Rand, h *History, ru *runner, nops int) {
 		push(Op{Kind: "wret", Out: pickOut(r, true)})
 		push(Op{Kind: "wdone"})
 	}
+	// ... and so must a request's call the handler is still inside
+	if s.busy {
+		push(Op{Kind: "bcret", Out: pickOut(r, false)})
+	}
 }
 
 // genTick: real ticker; quick caller phases alternate with waiting for the
@@ -609,7 +736,12 @@ func genB(r *rand.Rand, h *History, ru *runner, nops int) {
 func genTick(r *rand.Rand, h *History, ru *runner) {
 	s := ru.s
 	ntx := h.NTx
-	push := ru.exec
+	push := func(op Op) {
+		if op.Out != "" {
+			op.R = r.Intn(8)
+		}
+		ru.exec(op)
+	}
 	rounds := 2 + r.Intn(2)
 	for k := 0; k < rounds; k++ {
 		for i, n := 0, 1+r.Intn(3); i < n; i++ {
@@ -635,7 +767,7 @@ func genTick(r *rand.Rand, h *History, ru *runner) {
 			case s.w == 2:
 				push(Op{Kind: "wret", Out: []string{"accept", "mempool", "confirmed", "invalid"}[r.Intn(4)]})
 			default:
-				forced(ru)
+				forced(ru, r)
 			}
 		}
 	}
@@ -645,11 +777,16 @@ func genTick(r *rand.Rand, h *History, ru *runner) {
 
 func ops(spec string) []Op {
 	// compact notation: b3a = bc tx3 accept (outcomes a,m,i,f,u,c,o); c2 = conf 2;
-	// B block; C wcall(expected); P probe; r<a..> wret; H whand; D wdone; S stop
+	// B block; C wcall(expected); P probe; r<a..> wret; H whand; D wdone; S stop;
+	// T wait for tick; K<tx> Broadcast request whose callback is held; k<a..> its return
 	outs := map[byte]string{'a': "accept", 'm': "mempool", 'i': "invalid", 'f': "fee", 'u': "unknown", 'c': "confirmed", 'o': "other"}
 	var res []Op
 	for _, t := range strings.Fields(spec) {
 		switch t[0] {
+		case 'K':
+			res = append(res, Op{Kind: "bcstart", Tx: int(t[1] - '0')})
+		case 'k':
+			res = append(res, Op{Kind: "bcret", Out: outs[t[1]]})
 		case 'b':
 			res = append(res, Op{Kind: "bc", Tx: int(t[1] - '0'), Out: outs[t[2]]})
 		case 'c':
@@ -670,6 +807,11 @@ func ops(spec string) []Op {
 			res = append(res, Op{Kind: "stop"})
 		case 'T':
 			res = append(res, Op{Kind: "tickwait"})
+		}
+	}
+	for i := range res {
+		if res[i].Out != "" {
+			res[i].R = i // walk through the wordings of each class
 		}
 	}
 	return res
@@ -706,6 +848,30 @@ func corpusB() []History {
 		{Family: "b", NTx: 2, Parents: [][]int{nil, nil}, Ops: ops("b1a b2a B C S rf D")},
 		{Family: "b", NTx: 2, Parents: [][]int{nil, nil}, Ops: ops("b1a b2a B C S ru D")},
 		{Family: "b", NTx: 2, Parents: [][]int{nil, nil}, Ops: ops("b1a b2a B C S ro D")},
+		// Stop while the HANDLER is inside cfg.Broadcast for a caller's
+		// request: the caller leaves with ErrBroadcasterStopped, the call
+		// then returns with every reply class, the handler must not wait for
+		// the caller that left (errChan has capacity 1) and Stop must return
+		{Family: "b", NTx: 2, Parents: [][]int{nil, {1}}, Ops: ops("b1a K2 S ka c1 b2a")},
+		{Family: "b", NTx: 2, Parents: [][]int{nil, {1}}, Ops: ops("b1a K2 S km")},
+		{Family: "b", NTx: 2, Parents: [][]int{nil, {1}}, Ops: ops("b1a K2 S ki")},
+		{Family: "b", NTx: 2, Parents: [][]int{nil, {1}}, Ops: ops("K1 S kf")},
+		{Family: "b", NTx: 2, Parents: [][]int{nil, {1}}, Ops: ops("K1 S ku")},
+		{Family: "b", NTx: 2, Parents: [][]int{nil, {1}}, Ops: ops("K1 S kc")},
+		{Family: "b", NTx: 2, Parents: [][]int{nil, {1}}, Ops: ops("K1 S ko S c1")},
+		// ... also with a rebroadcast call open at the same time, either order
+		{Family: "b", NTx: 2, Parents: [][]int{nil, {1}}, Ops: ops("b1a b2a B C K1 S ka rc D")},
+		{Family: "b", NTx: 2, Parents: [][]int{nil, {1}}, Ops: ops("b1a b2a B C K1 S rc D km")},
+		// held requests without Stop: the caller gets the verdict; nothing
+		// else reaches the handler meanwhile, the worker goes on
+		{Family: "b", NTx: 3, Parents: [][]int{nil, {1}, {2}}, Ops: ops("b1a K2 km B C ra C ra D K3 ki K3 ka B C ra C ra C ra D")},
+		{Family: "b", NTx: 2, Parents: [][]int{nil, {1}}, Ops: ops("b1a b2a B K1 C ra C rc km H D B C ra D")},
+		// reply wordings end to end: "already have transaction <txid>" is a
+		// success and keeps being rebroadcast; "transaction already exists
+		// in blockchain" during a rebroadcast ends it (each class several times,
+		// so that every wording of rejectTexts is used)
+		{Family: "b", NTx: 2, Parents: [][]int{nil, nil}, Ops: ops("b1m b2m b1m b2m B C rm C rm D B C rc H C rm D B C rc H D B D")},
+		{Family: "b", NTx: 2, Parents: [][]int{nil, nil}, Ops: ops("b1i b1i b1i b1i b1i b2f b2f b2u b2u b2u b1c b1c b1c b1c B D b1m B C ri D B C rf D B C ru D B C rc H D B D")},
 	}
 }
 
